@@ -77,14 +77,21 @@ class RequestContextHolder:
     @classmethod
     def update_request_start(cls, new_request_start):
         meta = cls.request_context.get()
-        # this can happen if multiple requests are sent on the wire for one logical request (e.g. scrolls)
-        if "request_start" not in meta:
-            meta["request_start"] = new_request_start
+        # keep the earliest start: multiple requests may be sent on the wire for one logical request (e.g. scrolls)
+        # and nested contexts of concurrent sub-requests propagate their start in the order in which they exit
+        if new_request_start is not None:
+            current = meta.get("request_start")
+            if current is None or new_request_start < current:
+                meta["request_start"] = new_request_start
 
     @classmethod
     def update_request_end(cls, new_request_end):
         meta = cls.request_context.get()
-        meta["request_end"] = new_request_end
+        # keep the latest end (see update_request_start)
+        if new_request_end is not None:
+            current = meta.get("request_end")
+            if current is None or new_request_end > current:
+                meta["request_end"] = new_request_end
 
     @classmethod
     def on_request_start(cls):
